@@ -78,6 +78,10 @@ def ident(x):
     return ("ident-result-for", repr(x), type(x).__name__)
 
 
+def with_default(v, limit=2, tag="t"):
+    return ("with_default", v, limit, tag)
+
+
 def combined_vars():
     # two tracked variables with the same name in two modules (and a third one), read through their modules
     return ("combined", c05vars_a.BATCH, c05vars_b.BATCH, c05vars_a.OTHER)
@@ -300,6 +304,25 @@ def run(tier, seed):
                 {"kind": "api", "a": repr(a), "b": repr(b), "returned": repr(r2)},
                 mechanism=V.classify_pair(a, b),
             )
+    # --- arguments given by keyword, by position or left to the default: each binding gets the result of plain execution,
+    # in particular None / False / 0 / '' given explicitly where the default is something else
+    cs = CapturingStore(MemoryStore())
+    dds.set_store(cs)
+    for v in (1, None):
+        for given in ([], [None], [0], [False], [""], [2], [3], [None, None], [2, "t"], [0, ""]):
+            for as_kw in (False, True):
+                a = [v] + ([] if as_kw else list(given))
+                k = dict(zip(("limit", "tag"), given)) if as_kw else {}
+                want = with_default(*a, **k)
+                rep.count("api_default_bindings")
+                try:
+                    got = dds.keep("/pd", with_default, *a, **k)
+                except BaseException as e:
+                    rep.violate("dds.keep(/pd, with_default, %r, %r) raised %s: %s" % (a, k, type(e).__name__, str(e)[:150]), {"kind": "api-default", "args": repr(a), "kwargs": repr(k)}, mechanism="api-keep-raised")
+                    continue
+                if repr(got) != repr(want) and not (V.canon_doc(got) == V.canon_doc(want)):
+                    rep.violate("keep(/pd, with_default, *%r, **%r) returned %r, plain execution gives %r (a result computed for another binding of the defaulted parameters was served)" % (a, k, got, want),
+                                {"kind": "api-default", "args": repr(a), "kwargs": repr(k)}, mechanism="defaulted-parameter-binding-collision")
     # --- tracked variables: every state of (a.BATCH, b.BATCH, a.OTHER) gets its own signature and its own result
     states = [(1, 2, 0), (2, 1, 0), (3, 3, 0), (4, 4, 0), (1, 2, 1), (0, 0, 0), ("x", "y", 0), ("y", "x", 0), ([1], [2], 0), ([2], [1], 0), (None, 1, 0), (1, None, 0)]
     cs = CapturingStore(MemoryStore())
